@@ -52,6 +52,7 @@ pub fn run(seed: u64, count: usize, shards: usize, outdir: &str) {
         // kinds: group by capacity, sometimes split one capacity into two names, sometimes add quantity-0 kinds
         let mut kinds: Vec<(usize, usize, usize)> = Vec::new();
         let mut kind_json: Vec<serde_json::Value> = Vec::new();
+        let mut raw_kinds: Vec<(usize, usize, usize)> = Vec::new(); // the kinds in file order (before rooms::read sorts them)
         let (lists, names_ids, rooms_used) = if with_kinds {
             let mut caps: std::collections::BTreeMap<usize, usize> = std::collections::BTreeMap::new();
             for x in rooms.iter() {
@@ -80,6 +81,7 @@ pub fn run(seed: u64, count: usize, shards: usize, outdir: &str) {
             r.shuffle(&mut raw);
             for (id, cap, q) in raw.iter() {
                 kind_json.push(json!({"name": format!("K{}", id), "capacity": cap, "quantity": q}));
+                raw_kinds.push((*id, *cap, *q));
             }
             let (rs, rk) = read(serde_json::to_string(&kind_json).unwrap().as_bytes()).unwrap();
             for k in rk.iter() {
@@ -108,13 +110,14 @@ pub fn run(seed: u64, count: usize, shards: usize, outdir: &str) {
         }
         let (gc, _, _) = g_inst_parts(&inst);
         let case = format!(
-            "({}, {}, {}, {}, {}, {})",
+            "({}, {}, {}, {}, {}, {}, {})",
             gc,
             g_assignment(&a),
             g_natlist(&rooms_used),
             g_list(&lists, |l| g_natlist(l)),
             g_list(&kinds, |(id, cap, q)| format!("({}, {}, {})", g_nat(*id), g_nat(*cap), g_nat(*q))),
-            g_list(&names_ids, |l| g_natlist(l))
+            g_list(&names_ids, |l| g_natlist(l)),
+            g_list(&raw_kinds, |(id, cap, q)| format!("({}, {}, {})", g_nat(*id), g_nat(*cap), g_nat(*q)))
         );
         text[i % shards].push(case);
         metas[i % shards].push(json!({"inst_courses": j_inst(&inst)["courses"], "assignment": a, "rooms": rooms_used, "sizes": sizes,
